@@ -44,6 +44,14 @@ MENU = {
     "numpy_int": (I64, _cfg(), None, "S"),
     "numpy_float": (F64, _cfg(dt=("float64",)), None, "S"),
     "indexed_int": (I64, _cfg(indexed=True), None, "S"),
+    # every other numeric leaf width, with values at the ends of its range (class N: no sums - they would not be exact)
+    "numpy_uint8": (M.prim("uint8"), _cfg(dt=("uint8",), extremes=True), None, "N"),
+    "numpy_uint16": (M.prim("uint16"), _cfg(dt=("uint16",), extremes=True), None, "N"),
+    "numpy_uint32": (M.prim("uint32"), _cfg(dt=("uint32",), extremes=True), None, "N"),
+    "numpy_uint64": (M.prim("uint64"), _cfg(dt=("uint64",), extremes=True), None, "N"),
+    "numpy_int8": (M.prim("int8"), _cfg(dt=("int8",), extremes=True), None, "N"),
+    "numpy_int32": (M.prim("int32"), _cfg(dt=("int32",), extremes=True), None, "N"),
+    "numpy_float32": (M.prim("float32"), _cfg(dt=("float32",)), None, "N"),
     "opt_indexed64": (M.option_of(I64), _cfg(), None, "S"),
     "opt_indexed32": (M.option_of(I64), _cfg(opts=("IndexedOptionArray32",)), None, "S"),
     "opt_bytemask": (M.option_of(I64), _cfg(opts=("ByteMaskedArray",)), None, "S"),
@@ -277,6 +285,16 @@ def b_flat(builder, x):
     return builder
 
 
+def b_real_raw(builder, x):
+    for y in x:
+        builder.real(y)
+    return builder
+
+
+def mb_real_raw(x):
+    return [float(y) for y in x]
+
+
 def mb_flat(x):
     return [None if y is None else float(y) for y in x]
 
@@ -327,10 +345,10 @@ def mb_append(x, i):
 
 # name -> (function, shape classes, argument kinds, model function or None, is_builder)
 PROGRAMS = {
-    "len": (p_len, "S L LL R T LR U", [], None, False),
+    "len": (p_len, "S L LL R T LR U N", [], None, False),
     "return_arg": (p_return_arg, "S L LL R T LR U", [], None, False),
-    "getitem_at": (p_getitem_at, "S L LL R T LR U", ["i"], None, False),
-    "getitem_range": (p_getitem_range, "S L LL R T LR U", ["r", "r"], None, False),
+    "getitem_at": (p_getitem_at, "S L LL R T LR U N", ["i"], None, False),
+    "getitem_range": (p_getitem_range, "S L LL R T LR U N", ["r", "r"], None, False),
     "range_then_at": (p_range_then_at, "S L LL R T LR", ["r", "r", "j"], None, False),
     "range_then_len": (p_range_then_len, "S L LL R T LR U", ["r", "r"], None, False),
     "range_then_sum": (p_range_then_sum, "S", ["r", "r"], None, False),
@@ -339,7 +357,7 @@ PROGRAMS = {
     "sum_skipnone": (p_sum_skipnone, "S", [], None, False),
     "count_none": (p_count_none, "S L", [], None, False),
     "contains": (p_contains, "S", ["v"], None, False),
-    "asarray": (p_asarray, "S", [], None, False),
+    "asarray": (p_asarray, "S N", [], None, False),
     "first_negative": (p_first_negative, "S", [], None, False),
     "sum2": (p_sum2, "L", [], None, False),
     "lens": (p_lens, "L LL", [], None, False),
@@ -354,6 +372,7 @@ PROGRAMS = {
     "tuple_fields": (p_tuple_fields, "T", [], m_tuple_fields, False),
     "listrec": (p_listrec, "LR", [], m_listrec, False),
     "b_flat": (b_flat, "S", [], mb_flat, True),
+    "b_real_raw": (b_real_raw, "N", [], mb_real_raw, True),
     "b_lists": (b_lists, "L", [], mb_lists, True),
     "b_records": (b_records, "R", [], mb_records, True),
     "b_append": (b_append, "S L R T", ["i"], mb_append, True),
